@@ -150,7 +150,8 @@ def audit(pid, module, theorems):
     os.makedirs(WORK, exist_ok=True)
     path = os.path.join(WORK, "audit_%s.lean" % pid)
     with open(path, "w") as f:
-        f.write("import %s\n" % module)
+        for mod in ([module] if isinstance(module, str) else module):
+            f.write("import %s\n" % mod)
         for t in theorems:
             f.write("#print axioms %s\n" % t)
     rc, out = run(["lake", "env", "lean", path], cwd=LEAN, timeout=600)
